@@ -122,6 +122,75 @@ def external_fixed_point(mods, it):
     return found, nprop
 
 
+_FRESH = __import__('re').compile(r'^x\d+__fresh$')
+
+
+def _norm(toks):
+    return ['x#__fresh' if _FRESH.match(t) else t for t in toks]
+
+
+def last_sweep_incomplete(mods, it):
+    """The last sweep of a completed hierarchical run must have generated
+    exactly the candidates the enabled mutators of the last pass propose on
+    the final input (recomputed here from the text of that input, every
+    mutator guarded on its own).  Returns None or a description."""
+    import proposals as P
+    ev = it.conv.main_events()
+    sw = [i for i, e in enumerate(ev) if e['ev'] == 'sweep']
+    if not sw:
+        return None
+    tail = ev[sw[-1]:]
+    gen = next((e for e in tail if e['ev'] == 'generate'), None)
+    if gen is None or not any(e['ev'] == 'generate_end' for e in tail):
+        return None
+    got = [(e['node'], e['name'], _norm(e['cand'])) for e in tail
+           if e['ev'] == 'task' and e.get('strat') == 'hier']
+    r = it.run
+    text = r.out_text if r.out_text is not None else it.text
+    exprs = list(mods['nodeio'].parse_smtlib(text))
+    if P.toks_of(exprs) != tail[0]['base']:
+        return None   # the file is not the last sweep's input (C01's business)
+    mods['smtlib'].collect_information(exprs)
+    byname = {type(m).__name__: m for m in P.all_mutators(mods)}
+    muts = [byname[n] for n in tail[0]['muts'] if n in byname]
+    params = gen.get('params') or {}
+    nodes, mu = mods['nodes'], mods['mutator_utils']
+    want = []
+    count = 0
+    for node in nodes.bfs(exprs, params.get('max_depth', None)):
+        count += 1
+        if count <= gen.get('skip', 0):
+            continue
+        for m in muts:
+            try:
+                if hasattr(m, 'filter') and not m.filter(node):
+                    continue
+                props = []
+                if hasattr(m, 'mutations'):
+                    for x in m.mutations(node):
+                        props.append((str(m), x))
+                if hasattr(m, 'global_mutations'):
+                    for x in m.global_mutations(node, exprs):
+                        props.append((f'(global) {m}', x))
+            except Exception:  # noqa: costs this mutator only
+                pass
+            for name, simp in props:
+                try:
+                    ct = _norm(P.toks_of(mu.apply_simp(exprs, simp)))
+                except Exception as e:  # noqa
+                    ct = ['<apply failed %s>' % type(e).__name__]
+                want.append((count, name, ct))
+    if gen.get('skip', 0) != 0:
+        return None   # not a sweep from node 0: the trace spec rejects the end
+    if got != want:
+        miss = [w for w in want if w not in got]
+        extra = [g for g in got if g not in want]
+        return (f'{len(got)} candidates generated, {len(want)} expected; '
+                f'missing e.g. {[(n, nm) for n, nm, _ in miss[:3]]}, '
+                f'unexpected e.g. {[(n, nm) for n, nm, _ in extra[:3]]}')
+    return None
+
+
 def judge(rep, mods, items, second_runs):
     for it in items:
         r = it.run
@@ -133,6 +202,17 @@ def judge(rep, mods, items, second_runs):
             continue
         rep.nontrivial(sig)
         S.trace_violations(rep, it, CLAUSES)
+        try:
+            inc = last_sweep_incomplete(mods, it)
+        except Exception as e:  # noqa
+            raise common.MachineryError(
+                f'recomputing the last sweep failed: {e!r}')
+        if inc:
+            rep.violation(
+                f'last-sweep-incomplete:{sig}',
+                f'the last sweep of the last pass did not test every '
+                f'candidate of the final input: {inc}; options {it.opts}',
+                S.replay_obj(it))
         if r.out_text is None:
             continue
         try:
